@@ -28,7 +28,10 @@ def observe(P, seed, n_cases):
     id_of = {path[0]: iid for path, iid in flat}
     args0 = pg.gen_args(P, rng)
     ref0 = pr.plain_call(P, args0)
-    base = pr.run_real(d, flat, [pg.encode(x) for x in args0], False)
+    setup_sites = [j for j, st in enumerate(P["sites"], 1) if st.get("setup")]
+    # warm: the original has run (its setup results exist) before anything is composed; cold: compose first
+    warm = rng.random() < 0.6
+    base = pr.run_real(d, flat, [pg.encode(x) for x in args0], False) if warm else None
     plain_vals = {}
     if "val" in ref0:
         ex = {}
@@ -63,7 +66,8 @@ def observe(P, seed, n_cases):
     for _ in range(n_cases):
         ell = rng.random() < 0.15
         k_in = 0 if ell else rng.choice([0, 1, 1, 2, 2, 3])
-        ins = rng.sample(range(1, nsites + 1), min(k_in, nsites))
+        plain_sites = [j for j in range(1, nsites + 1) if j not in setup_sites]     # a setup node is never given as an input
+        ins = rng.sample(plain_sites, min(k_in, len(plain_sites)))
         single = rng.random() < 0.4
         outs = rng.sample(range(1, nsites + 1), 1 if single else min(nsites, rng.randint(1, 3)))
         if ell:
@@ -77,8 +81,10 @@ def observe(P, seed, n_cases):
                     vals.append(rng.choice(pg.INT_VALUES + [True, False, None, 9]))
         def alias(j):
             return id_of[j] if rng.random() < 0.6 else d.exec_nodes[id_of[j]]
+        held = {iid for iid in d.results}
         row = {"ins": ins, "outs": outs, "single": single, "ell": ell, "vals": [pg.encode(v) for v in vals],
-               "raised": False, "stage": "", "errclass": "", "val": pg.verr(), "exec": [], "orig_same": True}
+               "raised": False, "stage": "", "errclass": "", "val": pg.verr(), "exec": [], "orig_same": True,
+               "pre": [[j] for j in setup_sites if id_of[j] in held]}
         rec = pr.Recorder()
         try:
             with warnings.catch_warnings():
@@ -101,11 +107,17 @@ def observe(P, seed, n_cases):
         if any(i not in inv for i in rec.entered) and not row["raised"]:
             row["raised"], row["errclass"] = True, "holder-executed"
         again = pr.run_real(d, flat, [pg.encode(x) for x in args0], False)
-        if base["raised"]:
+        nosetup = lambda ex: [p for p in ex if p[0] not in setup_sites]  # noqa: E731  (setup sites run once per object)
+        if base is None:
+            # cold: the original is compared with the plain evaluation of the program
+            if "val" in ref0:
+                row["orig_same"] = (not again["raised"]) and again["val"] == ref0["val"] and nosetup(again["exec"]) == nosetup(ref0["exec"])
+            base = again
+        elif base["raised"]:
             # a failing original: which nodes were entered before the failure depends on thread timing
             row["orig_same"] = again["raised"] and again["errclass"] == base["errclass"]
         else:
-            row["orig_same"] = (again["raised"], again["val"], again["exec"]) == (False, base["val"], base["exec"])
+            row["orig_same"] = (again["raised"], again["val"], nosetup(again["exec"])) == (False, base["val"], nosetup(base["exec"]))
         rows.append(row)
     return rows
 
@@ -159,7 +171,7 @@ def run(tier, seed, log=common.say):
         remap = {p: k + 1 for k, p in enumerate(used)}
         path = os.path.join(common.CACHE, f"e2c-{os.getpid()}-{i}.json")
         os.makedirs(common.CACHE, exist_ok=True)
-        keys = ("ins", "outs", "single", "ell", "vals", "raised", "stage", "errclass", "val", "exec", "orig_same")
+        keys = ("ins", "outs", "single", "ell", "vals", "raised", "stage", "errclass", "val", "exec", "orig_same", "pre")
         with open(path, "w") as f:
             json.dump({"progs": [stripped[p - 1] for p in used], "obs": [{"p": remap[r["p"]], **{k: r[k] for k in keys}} for r in b]}, f)
         try:
@@ -246,7 +258,7 @@ def replay(payload, log=common.say):
     d, flat = pr.build(P, lambda k: {}, mc=2)
     id_of = {path[0]: iid for path, iid in flat}
     vals = [pg.decode(v) for v in row["vals"]]
-    new = dict(row, raised=False, stage="", errclass="", val=pg.verr(), exec=[], orig_same=True)
+    new = dict(row, raised=False, stage="", errclass="", val=pg.verr(), exec=[], orig_same=True, pre=row.get("pre", []))
     rec = pr.Recorder()
     try:
         with warnings.catch_warnings():
@@ -263,7 +275,7 @@ def replay(payload, log=common.say):
     inv = {iid: path for path, iid in flat}
     new["exec"] = sorted([list(inv[i]) for i in rec.entered if i in inv])
     path = os.path.join(common.CACHE, f"e2c-replay-{os.getpid()}.json")
-    keys = ("ins", "outs", "single", "ell", "vals", "raised", "stage", "errclass", "val", "exec", "orig_same")
+    keys = ("ins", "outs", "single", "ell", "vals", "raised", "stage", "errclass", "val", "exec", "orig_same", "pre")
     with open(path, "w") as f:
         json.dump({"progs": [payload["prog"]], "obs": [{"p": 1, **{k: new[k] for k in keys}}]}, f)
     r = tlc.run_tlc("CompCheck", "CompCheck.cfg", env={"CASE_FILE": path}, workers=1)
